@@ -21,6 +21,7 @@ PROFILES = {
     "role": dict(p_role=0.08, nkeys=2, p_time=0.3, expr=[1, 2, 3, 5, 10, 20], eflags=[0, 0, 0x100, 0x100]),
     "aof": dict(aoftimes=[0, 1, 2, 5], p_time=0.35, eflags=[0, 0, 0x100, 0x200, 0x1000, 0x40], nkeys=2),
     "sched": dict(sched=True, nkeys=1, nids=5, p_unlock=0.3, p_time=0.12, timeouts=[0, 0, 2, 5, 9], counts=[0, 0, 0, 1, 2], expr=[0, 2, 5, 10, 20], length=(8, 50)),
+    "schedrole": dict(sched=True, nkeys=1, nids=4, p_unlock=0.25, p_time=0.1, p_role=0.12, timeouts=[0, 0, 3], counts=[0, 1], expr=[0, 2, 5, 10], length=(8, 40)),
     "sched2": dict(sched=True, nkeys=2, nids=4, p_unlock=0.3, p_time=0.15, timeouts=[0, 3, 8], counts=[0, 1, 65535], expr=[1, 3, 10], length=(10, 60)),
     "many": dict(nkeys=1, nids=400, counts=[65535, 300, 200], timeouts=[30, 60], expr=[50, 100], p_unlock=0.2, length=(300, 700), p_time=0.03),
 }
@@ -156,8 +157,8 @@ class Gen:
                 nacks += 1
                 self.stats["ack"] += 1
             elif x < p_time + p_unlock + self.p.get("p_ackact", 0.0) + self.p.get("p_role", 0.0):
-                b = r.choice([0, 0, 1])
-                follower = (b == 0)
+                b = r.choice([0, 0, 1, 2, 3, 4])
+                follower = (b != 1)
                 lines.append("role %d" % b)
                 self.stats["role"] += 1
             else:
